@@ -858,6 +858,15 @@ func (r *reader) read(src []byte) {
 			r.pushChar(src)
 		case intMode:
 			r.pushInteger(src)
+		case bitVectorMode:
+			token := r.makeToken(src)
+			if 0 < len(r.stack) {
+				r.stack = append(r.stack, ReadBitVector(token))
+			} else {
+				r.code = append(r.code, ReadBitVector(token))
+			}
+		case sharpMode, sharpNumMode:
+			r.partial("sharp macro not terminated")
 		}
 		if 0 < len(r.stack) {
 			r.partial("list not terminated")
